@@ -713,7 +713,11 @@ func TestVerifXdscRandom(t *testing.T) {
 					}
 					st := step{A: "watch", W: nextW, T: 1 + rng.Intn(2), N: names[rng.Intn(len(names))], Hold: rng.Intn(100) < holdP}
 					if mode == "ads" && rng.Intn(6) == 0 {
+						// burst: no quiescence after this watch.  Such a watcher never withholds onDone, so that
+						// every callback a holding watcher records after a "read" line is caused by that response
+						// (a cached-value callback of a burst watch may arrive after later inputs).
 						st.NW = true
+						st.Hold = false
 					}
 					nextW++
 					e.apply(st)
